@@ -484,10 +484,18 @@ def check_turn_case(case, sess: Session):
                     if cons.get("ms") != elapsed_at[i]:
                         sess.violation("yield:consumed-ms-is-not-the-elapsed-time-of-the-turn", tcase, {"boundary": i, "consumed": cons, "elapsed_on_the_clock_ms": elapsed_at[i]})
                         break
+            # the budgets a boundary decides on are the configured ones (scheduler.budgets + scheduler.quantum_ms), whatever
+            # container the orchestrator hands to its decision helper
+            cfg_bud = {k_: int(v_) for k_, v_ in b.items() if v_ is not None and k_ in ("t1_pops", "t1_iters", "t2_k", "t3_ops", "wall_ms")}
+            cfg_bud["quantum_ms"] = int(env.cfg["scheduler"].get("quantum_ms", 20))
             for i, (bud, cons, res) in enumerate(decisions):
                 exp = table_oracle(bud, cons)
                 if exp != res:
                     sess.violation("should_yield:precedence(in-turn)", tcase, {"budgets": bud, "consumed": cons, "got": res, "exp": exp})
+                exp_cfg = table_oracle(cfg_bud, cons)
+                sess.count("boundary_decisions_checked_against_the_configuration")
+                if exp_cfg != res:
+                    sess.violation("yield:decision-differs-from-the-configured-budgets", tcase, {"configured": cfg_bud, "consumed": cons, "got": res, "exp": exp_cfg})
                 if res is not None:
                     yielded_at = i
                     if i != len(decisions) - 1:
